@@ -933,6 +933,66 @@ def part_b(ctx, si, sn, quick):
             break
 
 
+def resend_from_reply_handler(ctx):
+    """A prepared call message (callRemoteMessage) whose reply handler sends the very same message object again - a poller
+    re-issuing its request, a retry after an error reply - so the new call is registered under the serial of the one being
+    completed.  The re-sent call is outstanding when the connection is lost: it fails once with the loss reason and its
+    deadline timer is gone."""
+    from txdbus import message as MSG
+    case = {'kind': 'resend-in-handler'}
+    for variant in ('after-return', 'after-error'):
+        for timeout in (None, 4.0):
+            clock = clientfix.install_clock()
+            peer = clientfix.Peer().ready()
+            conn = peer.proto
+            peer.take()
+            loss = Failure(ConnectionLost('verif loss after re-send'))
+            mcall = MSG.MethodCallMessage('/obj', 'Poll', interface='org.verif.I', destination='org.verif.P')
+            second = []
+
+            def again(res, _m=mcall, _t=timeout):
+                second.append(clientfix.Outcome(conn.callRemoteMessage(_m, _t)))
+                return None
+            first = conn.callRemoteMessage(mcall, timeout)
+            first.addBoth(again)
+            out1 = clientfix.Outcome(first)
+            sent = [m for m in peer.take() if m.fields.get('member') == 'Poll']
+            ctx.count('evaluations')
+            ctx.count('resend_in_handler_scenarios')
+            w = {'variant': variant, 'timeout': timeout}
+            if len(sent) != 1:
+                ctx.report(None, 'callRemoteMessage wrote %d messages' % len(sent), w, case)
+                return
+            if variant == 'after-return':
+                peer.send(RM.build(RM.METHOD_RETURN, 40, {'reply_serial': sent[0].serial}, 's', ['first']))
+            else:
+                peer.send(RM.build(RM.ERROR, 40, {'reply_serial': sent[0].serial, 'error_name': 'org.verif.Busy'}, 's', ['busy']))
+            resent = [m for m in peer.take() if m.fields.get('member') == 'Poll']
+            if len(second) != 1 or len(resent) != 1 or second[0].fired:
+                ctx.report(None, 'the handler re-sent the message: %d sends, %d written, completed early %r' % (
+                    len(second), len(resent), second[0].results if second else None), w, case)
+                return
+            peer.lose(loss)
+            try:
+                clock.advance(1000)
+            except Exception as e:
+                ctx.report('timer-callback-raised', 'a timer raised %r after the loss (a call re-sent from its own reply '
+                           'handler was outstanding)' % e, w, case)
+                return
+            o = second[0]
+            w['resent_call'] = [(k, repr(v.value if k == 'err' else v)[:80]) for k, v in o.results]
+            if o.fired != 1 or o.results[0][0] != 'err' or o.results[0][1].value is not loss.value:
+                ctx.report('resent-call-not-failed-by-loss', 'a call re-sent from inside its own reply handler (same message '
+                           'object, same serial) was outstanding when the connection was lost and completed %r' % (
+                               w['resent_call'],), w, case)
+                return
+            if conn._pendingCalls or clock.getDelayedCalls():
+                ctx.report('timer-after-loss', 'after the loss: %d pending entries, %d timers' % (
+                    len(conn._pendingCalls), len(clock.getDelayedCalls())), w, case)
+                return
+            ctx.count('resent_calls_failed_by_loss')
+
+
 def run(ctx):
     si, sn = ctx.shard or (0, 1)
     quick = ctx.tier == 'quick'
@@ -948,6 +1008,7 @@ def run(ctx):
     part_b(ctx, si, sn, quick)
     if si == 0:
         synchronous_loss(ctx)
+        resend_from_reply_handler(ctx)
     ctx.sample({'address': ENTRIES[0][0] + ';' + ENTRIES[2][0], 'mask': [False, True], 'behaviour': 'second-mechanism',
                 'cut': 37})
     ctx.sample({'established_steps': [[k, a] for k, a in traffic_steps(None, 3)], 'lose_at': 4, 'partial': 17})
@@ -962,6 +1023,8 @@ def replay(ctx, rp):
     case = rp['case']
     if case['kind'] == 'established':
         established_case(ctx, case['scenario'], case['lose_at'], case['partial'], case)
+    elif case['kind'] == 'resend-in-handler':
+        resend_from_reply_handler(ctx)
     elif case['kind'] == 'connect':
         part_a_full(ctx)
         connect_case(ctx, case['entries'], case['mask'], case['behaviour'], case['cut'], case,
